@@ -48,7 +48,7 @@ class C08(Check):
         ns = rng.randrange(2, 5) if dec != "MunkresDecision" else rng.randrange(3, 5)
         cfg = gen.network_case(rng, nsteps=rng.randrange(2, 5), n_sensors=ns, n_targets=rng.randrange(2, 6), coarse=True if narrow else None,
                                narrow_fov=narrow, decision=dec, model="two_body" if rng.random() < 0.9 else None, out_mult=rng.choice([1, 1, 1, 2, 3]),
-                               space_sensor_p=0.1, two_engines_p=0.2, geo_p=0.75, placed_p=0.95, cluster_p=0.35, background=rng.random() < 0.7,
+                               space_sensor_p=0.1, two_engines_p=0.2, geo_p=0.75, placed_p=0.95, cluster_p=0.35, background=rng.random() < 0.7, id_stride=rng.choice([1, 1, 1, 8]),      # ids 8 apart collide in small hash tables (set / dict iteration then follows insertion order)
                                kinds=("radar", "adv_radar", "optical") if rng.random() < 0.3 else ("radar", "adv_radar"), masks=rng.random() < 0.4)
         if narrow:
             cfg["noise"]["init_position_std_km"] = rng.choice([1.0, 5.0, 20.0])
